@@ -707,7 +707,7 @@ func crashsimReplay(c *Ctx, rf *ReplayFile) []Violation {
 	}
 	plan := crashPlan{mode: rf.Mode, thorough: rf.Tier == "thorough", all: rf.Tier == "thorough" || rf.Mode == "async"}
 	var out []Violation
-	for _, v := range runCrashCase(c, dc, simrt.ReplayTape(rf.Tape), plan).vs {
+	for _, v := range runCrashCase(c, dc, tapeFor(rf), plan).vs {
 		out = append(out, Violation{Property: rf.Property, Sig: v.sig, Detail: v.detail})
 	}
 	return out
